@@ -705,6 +705,12 @@ class Request(interfaces.Request, BaseUnicastRequest):
 
         first_event = yield None
 
+        if self.response.cancelled():
+            # The application lost interest (eg. the task awaiting the response
+            # was cancelled, which cancels the future right away), but the
+            # cancellation handler has not run yet: there is nobody to tell.
+            return
+
         if first_event.message is not None:
             self._add_response_properties(first_event.message, self._pipe.request)
             self.response.set_result(first_event.message)
